@@ -107,6 +107,7 @@ def cfgs_plans(tier, rng):
                                payload=pick(rng, [0, 0, 2]), plans=1, serial=k % 2, history=1, log="on"))
     out.append(cfgmod.make(n=8, head=1, manual=0, limit=2, cap=3, payload=0, plans=1, serial=0, history=1, log="on"))      # per-state bit sets exactly one byte long
     out.append(cfgmod.make(n=3, head=1, manual=0, limit=2, cap=2, payload=2, plans=1, serial=1, history=1, log="off"))     # no logger: origins of plan-issued requests are still visible to guards and history
+    out.append(cfgmod.make(n=3, head=1, manual=0, limit=3, cap=2, payload=2, plans=1, serial=0, history=1, log="on", inj_state=2, inj_root=2, order=1))   # reports and plan edits from injected bases
     out.append(cfgmod.make(n=130, head=1, manual=0, limit=2, cap=3, payload=0, plans=1, serial=0, history=1, log="on"))    # state ids above 127: 17 bytes of report bits, ids that do not fit 7 bits
     out.append(cfgmod.make(n=3, head=1, manual=1, limit=2, cap=0, payload=0, plans=1, serial=0, history=0, log="on"))      # no TaskCapacityN<>: the capacity is the number of states
     if tier != "quick":
@@ -120,6 +121,7 @@ def cfgs_plans9(tier, rng):
         out.append(cfgmod.make(n=pick(rng, [1, 2, 3]), head=1, manual=1 if k % 3 else 0, limit=pick(rng, [2, 4]), cap=[1, 2, 3][k % 3],
                                payload=[0, 2, 0][k % 3], plans=1, serial=k % 2, history=1, log="on"))
     out.append(cfgmod.make(n=70, head=1, manual=1, limit=2, cap=2, payload=2, plans=1, serial=0, history=1, log="on"))     # report bits spanning nine bytes, payload plans
+    out.append(cfgmod.make(n=2, head=1, manual=1, limit=4, cap=3, payload=0, plans=1, serial=1, history=0, log="on", inj_state=2, inj_root=1, order=1))
     return out
 
 P_PLANS = BASE.with_(n_ops=(10, 36), n_tab=(1, 8), p_logger_at_construct=1.0,
@@ -133,6 +135,7 @@ def cfgs_replication(tier, rng):
     for k in range(4 if tier == "quick" else 10):
         out.append(cfgmod.make(n=pick(rng, [2, 3, 4, 5]), head=k % 2, manual=(k // 2) % 2, limit=pick(rng, [1, 2, 4]), payload=pick(rng, [0, 2]),
                                plans=0, history=1, serial=0, log="off"))
+    out.append(cfgmod.make(n=3, head=1, manual=1, limit=2, cap=2, payload=2, plans=1, history=1, serial=1, log="off", inj_state=2, order=1))   # plans and serialization compiled in, injected bases, options reversed
     return out
 
 P_REPL = P_REQ.with_(w_ops=dict(replayTransition=6, replayEnter=2, exit_enter=3, second_instance=2, copy=1))
@@ -172,6 +175,8 @@ def cfgs_logging(tier, rng):
     # a head that defines only one of the two plan outcome callbacks (non-verbose logging decides per callback whether to record)
     out.append(cfgmod.make(n=2, head=1, manual=0, limit=2, cap=2, payload=0, plans=1, history=0, log="on", defroot=FULL & ~0x2000, defstate=FULL))
     out.append(cfgmod.make(n=2, head=1, manual=1, limit=2, cap=2, payload=0, plans=1, history=0, log="on", defroot=FULL & ~0x1000, defstate=FULL))
+    out.append(cfgmod.make(n=2, head=1, manual=0, limit=2, cap=2, payload=0, plans=1, history=1, log="verbose", inj_state=2, inj_root=2, order=1))
+    out.append(cfgmod.make(n=3, head=0, manual=1, limit=2, cap=2, payload=2, plans=0, history=0, log="on", inj_state=3))
     # state classes whose callbacks are const member functions (the method records must still name the method delivered)
     out.append(cfgmod.make(n=3, head=1, manual=0, limit=2, cap=2, payload=0, plans=1, history=0, log="on", constcb=1))
     out.append(cfgmod.make(n=2, head=1, manual=1, limit=2, cap=2, payload=2, plans=0, history=1, log="on", inj_state=1, constcb=1))
@@ -473,6 +478,8 @@ def cfgs_copies(tier, rng):
     for k in range(6 if tier == "quick" else 16):
         out.append(cfgmod.make(n=pick(rng, [1, 2, 3, 4]), head=k % 2, manual=(k // 2) % 2, limit=pick(rng, [2, 4]), cap=pick(rng, [1, 2, 3]), payload=pick(rng, [0, 2, 5]),
                                plans=1 if k % 3 else 0, serial=1, history=1, log="on" if k % 2 else "off", sdata=1 if k % 2 == 0 else 0))
+    out.append(cfgmod.make(n=3, head=1, manual=0, limit=2, cap=4, payload=2, plans=1, serial=1, history=1, log="on", inj_state=2, inj_root=1, order=1))    # copies of machines whose states have injected bases
+    out.append(cfgmod.make(n=2, head=1, manual=1, limit=2, cap=2, payload=0, plans=0, serial=0, history=0, log="on"))                                   # a logger but no plans, no history, no serialization
     return out
 
 P_COPIES = P_LIFE.with_(n_ops=(10, 34), w_ops=dict(copy=7, second_instance=3, destroy_construct=2, succeed=3, fail=1, plan_append=5, plan_appendWith=2, changeWith=3, immChangeWith=3, loadfrom=2),
